@@ -115,9 +115,12 @@ class AsyncListener:
             self.data == data
             and (now - _DUPLICATE_PACKET_SUPPRESSION_INTERVAL) < self.last_time
             and self.last_message is not None
-            and not self.last_message.has_qu_question()
+            and not (self.last_message.is_query() and self.last_message.has_qu_question())
         ):
-            # Guard against duplicate packets
+            # Guard against duplicate packets, only a query with a unicast
+            # question is let through again since it may have to be answered
+            # by unicast once more; a response that merely echoes such a
+            # question is a duplicate like any other
             if debug:
                 log.debug(
                     'Ignoring duplicate message with no unicast questions received from %s [socket %s] (%d bytes) as [%r]',
